@@ -4,6 +4,7 @@ import (
 	"bytes"
 	"fmt"
 	"os"
+	"runtime"
 	"sort"
 	"sync"
 	"syscall"
@@ -503,4 +504,140 @@ func TestC18Concurrent(t *testing.T) {
 		hC18.Class("concurrent-batch")
 		hC18.NonTrivial(hx.FP("concurrent", r), func() string { return fmt.Sprintf("%d goroutines x %d sends on one client", g, m) })
 	}
+}
+
+// TestC18Multicast: kernel datagrams that were not caused by the client's own requests. In a private network
+// namespace (one locked OS thread that is thrown away afterwards; nothing outside it changes) a raw socket adds
+// and removes addresses on the loopback device; the kernel multicasts RTM_NEWADDR / RTM_DELADDR notifications,
+// whose nlmsg_pid is the port id of the socket that asked. A client of the library and a raw socket both
+// listen to the group and get copies of the same datagram: what Receive hands to the parser must be
+// byte-identical to what the raw socket read.
+func TestC18Multicast(t *testing.T) {
+	rounds := hx.EnvInt("VERIF_N", 200)
+	type result struct {
+		c   *C18Case
+		err error
+	}
+	res := make(chan result, 1)
+	go func() {
+		runtime.LockOSThread() // never unlocked: the thread that lives in the private namespace ends with the goroutine
+		c, err := multicastRounds(t, rounds)
+		res <- result{c, err} // (t.Fatal must not be called from here: it would end this goroutine, not the test)
+	}()
+	r := <-res
+	if r.c != nil {
+		hC18.Fail(t, "TestC18Multicast", *r.c, "%v", r.err)
+	}
+	if r.err != nil {
+		t.Fatal(r.err)
+	}
+}
+
+const rtmgrpIPv4IfAddr = 0x10 // RTMGRP_IPV4_IFADDR
+
+func multicastRounds(t *testing.T, rounds int) (*C18Case, error) {
+	if err := syscall.Unshare(syscall.CLONE_NEWNET); err != nil {
+		hC18.Class("no-private-network-namespace")
+		t.Logf("unshare(CLONE_NEWNET): %v — stage skipped", err)
+		return nil, nil
+	}
+	raw := func(groups uint32) (int, error) {
+		fd, err := syscall.Socket(syscall.AF_NETLINK, syscall.SOCK_RAW, syscall.NETLINK_ROUTE)
+		if err != nil {
+			return -1, err
+		}
+		return fd, syscall.Bind(fd, &syscall.SockaddrNetlink{Family: syscall.AF_NETLINK, Groups: groups})
+	}
+	req, err := raw(0)
+	if err != nil {
+		return nil, fmt.Errorf("requester socket: %v", err)
+	}
+	defer syscall.Close(req)
+	ref, err := raw(rtmgrpIPv4IfAddr)
+	if err != nil {
+		return nil, fmt.Errorf("reference listener: %v", err)
+	}
+	defer syscall.Close(ref)
+	cl, err := libaudit.NewNetlinkClient(syscall.NETLINK_ROUTE, rtmgrpIPv4IfAddr, make([]byte, 16384), nil)
+	if err != nil {
+		return nil, fmt.Errorf("NewNetlinkClient: %v", err)
+	}
+	defer cl.Close()
+	recvRaw := func(fd int) ([]byte, error) {
+		buf := make([]byte, 16384)
+		for try := 0; try < 2000; try++ {
+			n, _, err := syscall.Recvfrom(fd, buf, syscall.MSG_DONTWAIT)
+			if err == syscall.EAGAIN || err == syscall.EINTR {
+				time.Sleep(100 * time.Microsecond)
+				continue
+			}
+			return buf[:max(n, 0)], err
+		}
+		return nil, syscall.EAGAIN
+	}
+	for r := 0; r < rounds; r++ {
+		addr := []byte{10, byte(r >> 8), byte(r), byte(1 + r%250)}
+		prefix := byte(8 + r%25)
+		payload := []byte{syscall.AF_INET, prefix, 0, 0, 1, 0, 0, 0} // ifaddrmsg: family, prefixlen, flags, scope, index of lo
+		for _, a := range []uint16{syscall.IFA_LOCAL, syscall.IFA_ADDRESS} {
+			payload = append(payload, 8, 0, byte(a), 0)
+			payload = append(payload, addr...)
+		}
+		for step, typ := range []uint16{syscall.RTM_NEWADDR, syscall.RTM_DELADDR} {
+			c := C18Case{Kind: "multicast", Type: typ, Payload: payload}
+			hC18.Eval()
+			flags := uint16(syscall.NLM_F_REQUEST | syscall.NLM_F_ACK)
+			if typ == syscall.RTM_NEWADDR {
+				flags |= syscall.NLM_F_CREATE | syscall.NLM_F_EXCL
+			}
+			if err := syscall.Sendto(req, simk.Msg(typ, flags, uint32(1000+2*r+step), 0, payload), 0, &syscall.SockaddrNetlink{Family: syscall.AF_NETLINK}); err != nil {
+				return nil, fmt.Errorf("request %d: %v", typ, err)
+			}
+			ack, err := recvRaw(req)
+			if err != nil || len(ack) < 20 || ne.Uint16(ack[4:]) != syscall.NLMSG_ERROR || ne.Uint32(ack[16:]) != 0 {
+				return nil, fmt.Errorf("the kernel did not acknowledge request %d for %v/%d: % x (%v)", typ, addr, prefix, ack, err)
+			}
+			want, err := recvRaw(ref)
+			if err != nil {
+				return nil, fmt.Errorf("reference listener: no notification for request %d: %v", typ, err)
+			}
+			// alternately through the raw parser (the bytes) and the standard one (type and payload per message)
+			parser, std := libaudit.NetlinkParser(rawParser), (r+step)%2 == 1
+			if std {
+				parser = syscall.ParseNetlinkMessage
+			}
+			var got []syscall.NetlinkMessage
+			for try := 0; try < 2000; try++ {
+				got, err = cl.Receive(true, parser)
+				if err == syscall.EAGAIN || err == syscall.EINTR {
+					time.Sleep(100 * time.Microsecond)
+					continue
+				}
+				break
+			}
+			what := fmt.Sprintf("kernel notification type %d (%d bytes, nlmsg_pid %d = the port id of the socket that asked) multicast to the client", ne.Uint16(want[4:]), len(want), ne.Uint32(want[12:]))
+			if err != nil {
+				return &c, fmt.Errorf("%s: Receive returned an error for a datagram sent by the kernel: %v", what, err)
+			}
+			if std {
+				ref, perr := syscall.ParseNetlinkMessage(want)
+				if perr != nil || len(ref) != len(got) {
+					return &c, fmt.Errorf("%s: Receive returned %d messages, the datagram holds %d (%v)", what, len(got), len(ref), perr)
+				}
+				for i := range ref {
+					if got[i].Header != ref[i].Header || !bytes.Equal(got[i].Data, ref[i].Data) {
+						return &c, fmt.Errorf("%s: message %d came back as header %+v payload % x, the datagram has header %+v payload % x", what, i, got[i].Header, got[i].Data, ref[i].Header, ref[i].Data)
+					}
+				}
+			} else if len(got) != 1 || !bytes.Equal(got[0].Data, want) {
+				return &c, fmt.Errorf("%s: Receive handed the parser % x, the datagram is % x", what, got, want)
+			}
+			// and through the standard parser: type and payload
+			hC18.Class("multicast-notification-received")
+			if ne.Uint32(want[12:]) != 0 {
+				hC18.NonTrivial(hx.FP("multicast", r, step), func() string { return what })
+			}
+		}
+	}
+	return nil, nil
 }
